@@ -29,6 +29,7 @@ static inline void vvec_insert_front_n(vvec *v, size_t n) { v->size = v->size + 
  * ghost allocation bound (allocation failure = std::bad_alloc is outside every property) */
 typedef struct vvec2 { size_t size; size_t cap; vvec *items; } vvec2;
 static inline vvec *vvec2_back(vvec2 *v) { VERIF_STD_PRE(v->size > 0, "vector::back on an empty vector"); return &v->items[v->size - 1]; }
+static inline vvec *vvec2_front(vvec2 *v) { VERIF_STD_PRE(v->size > 0, "vector::front on an empty vector"); return &v->items[0]; }
 static inline void vvec2_emplace_back(vvec2 *v, size_t inner) { VERIF_STD_PRE(v->size < v->cap, "ghost capacity (contracts require room for one more element: allocation succeeds)"); v->items[v->size].size = inner; v->size = v->size + 1; }
 static inline void vvec2_pop_back(vvec2 *v) { VERIF_STD_PRE(v->size > 0, "vector::pop_back on an empty vector"); v->size = v->size - 1; }
 
